@@ -184,9 +184,12 @@ var (
 
 func TestVerifC18CrashTickets(t *testing.T) {
 	e := ev.For("C18")
-	e.Rule("crash-tickets: a pre-state of 0-5 storeTicket/getTicket operations is built in-process, then the helper (re-executed test binary under strace) loads the store and runs 1-6 (thorough: 1-12) generated operations over a pool of 1-4 (thorough: 1-6) addresses (IPv4 and IPv6); crash states = every prefix of the recorded calls + torn prefixes of every write (all lengths <= 512 bytes, boundaries and a spread above; thorough: all lengths); on every crash state loadTicketStore and Transport.ClientFactory run in-process; non-trivial = crash state whose directory content differs from both the pre-run and the post-run directory; fingerprint = (pre-state, operations, call index, torn length)")
+	e.Rule("crash-tickets: a pre-state of 0-5 storeTicket/getTicket operations is built in-process, then the helper (re-executed test binary under strace) loads the store and runs 1-6 (thorough: 1-12) generated operations over a pool of 1-4 (thorough: 1-6) addresses (IPv4 and IPv6); crash states = every prefix of the recorded calls + torn prefixes of every write (all lengths <= 512 bytes, boundaries and a spread above; thorough: all lengths); on every crash state loadTicketStore and Transport.ClientFactory run in-process, then the client goes on with the crash residue (e.g. *.tmp) carried along: getTicket of one held address / storeTicket of a new ticket / getTicket of every held address, each followed by a reload (all three after every call boundary, one in rotation on torn states); non-trivial = crash state whose directory content differs from both the pre-run and the post-run directory; fingerprint = (pre-state, operations, call index, torn length)")
 	e.Assume("crash model: the process is killed; completed system calls persist in program order; a single write may be torn at any byte; fsync is a no-op (no power loss, no reordering of completed calls)")
 	e.Floor("crash-tickets-torn-write/crash-tickets", 0.5)
+	for _, c := range []string{"get", "store", "get-all"} {
+		e.Floor("crash-tickets-cont-"+c+"/crash-tickets", 0.10)
+	}
 	e.Floor("crash-tickets-during-get/crash-tickets", 0.01)
 	tornAll := ev.Thorough()
 	maxOps, maxPool := 6, 4
@@ -307,13 +310,16 @@ func TestVerifC18CrashTickets(t *testing.T) {
 			if st.Torn >= 0 {
 				ntorn++
 			}
-			_ = os.RemoveAll(rec)
-			if err := os.Mkdir(rec, 0o700); err != nil {
-				vf18Inconclusive("mkdir: %v", err)
+			materialize := func() {
+				_ = os.RemoveAll(rec)
+				if err := os.Mkdir(rec, 0o700); err != nil {
+					vf18Inconclusive("mkdir: %v", err)
+				}
+				if err := st.FS.Materialize(rec); err != nil {
+					vf18Inconclusive("materialize: %v", err)
+				}
 			}
-			if err := st.FS.Materialize(rec); err != nil {
-				vf18Inconclusive("materialize: %v", err)
-			}
+			materialize()
 			where := func() string {
 				var files []string
 				for _, n := range st.FS.Names() {
@@ -375,8 +381,87 @@ func TestVerifC18CrashTickets(t *testing.T) {
 					return false
 				}
 			}
+			// The client's life goes on after the crash: continuations on the store,
+			// with the crash residue (e.g. *.tmp) carried along exactly as the crash left
+			// it; after each the store must load again, hold nothing that was handed out
+			// and nothing that was not in it.
+			afterCrash := vf18StoreContent(loaded)
+			var addrs []string
+			for a := range afterCrash {
+				addrs = append(addrs, a)
+			}
+			sort.Strings(addrs)
+			variants := []int{0, 1, 2}
+			if st.Torn >= 0 {
+				variants = []int{ntorn % 3}
+			}
+			var contCls []string
+			for _, v := range variants {
+				s := loaded
+				if v > 0 {
+					materialize()
+					var lerr error
+					if s, lerr = loadTicketStore(rec); lerr != nil {
+						violation = fmt.Sprintf("VIOL[c18-ticket-load-blocked]: second load of the same crash state fails: %v\n%s", lerr, where())
+						return false
+					}
+				}
+				model := afterCrash.clone()
+				var did []string
+				switch v {
+				case 0: // hand out one ticket (shrinks the file)
+					a := pool[0]
+					if len(addrs) > 0 {
+						a = addrs[0]
+					}
+					op := vf18TicketOp{Op: "get", Addr: a}
+					if len(addrs) > 0 {
+						// addrs hold net.Addr.String() forms, which vf18Addr parses back
+						op.Addr = addrs[0]
+					}
+					vf18ApplyTicketOp(s, op)
+					delete(model, vf18Addr(op.Addr).String())
+					did = append(did, op.String())
+					contCls = append(contCls, "crash-tickets-cont-get")
+				case 1: // store a new ticket
+					op := vf18TicketOp{Op: "store", Addr: pool[(st.Index+len(addrs))%len(pool)], Raw: hex.EncodeToString(detrand.Bytes(uint64(900000+st.Index), ticketKeyLength+ticketLength))}
+					vf18ApplyTicketOp(s, op)
+					model.apply(op)
+					did = append(did, op.String())
+					contCls = append(contCls, "crash-tickets-cont-store")
+				case 2: // hand out everything (the shortest possible file)
+					for _, a := range addrs {
+						op := vf18TicketOp{Op: "get", Addr: a}
+						vf18ApplyTicketOp(s, op)
+						delete(model, a)
+						did = append(did, op.String())
+					}
+					contCls = append(contCls, "crash-tickets-cont-get-all")
+				}
+				ctx := fmt.Sprintf("continuation after the crash: load ; %s ; load (store held %v after the crash)", strings.Join(did, " ; "), afterCrash)
+				var again *ssTicketStore
+				res := drive.Call(60*time.Second, func() error {
+					var e error
+					again, e = loadTicketStore(rec)
+					if e == nil {
+						_, e = (&Transport{}).ClientFactory(rec)
+					}
+					return e
+				})
+				if res.Failed() || res.Err != nil {
+					violation = fmt.Sprintf("VIOL[c18-ticket-load-blocked]: %s: the store no longer loads, which blocks client start-up: %s\n%s", ctx, res, where())
+					return false
+				}
+				for addr, got := range vf18StoreContent(again) {
+					want, have := model[addr]
+					if !have || want.raw != got.raw {
+						violation = fmt.Sprintf("VIOL[c18-ticket-invented]: %s: the store then holds for %s the ticket %s.., which it should not (handed out, or never stored there); expected at most %v\n%s", ctx, addr, got.raw[:8], model, where())
+						return false
+					}
+				}
+			}
 			fp := st.FS.Fingerprint()
-			cls := []string{"crash-tickets"}
+			cls := append([]string{"crash-tickets"}, contCls...)
 			if st.Torn >= 0 {
 				cls = append(cls, "crash-tickets-torn-write")
 			}
